@@ -29,10 +29,12 @@ var codePkgs = map[string]string{
 	"x/did/keeper":  "didkeeper",
 	"x/did/internal/secp256k1util": "didsecp",
 	"x/burn/keeper": "burnkeeper",
+	"x/pnft/types":  "pnfttypes",
+	"x/pnft/keeper": "pnftkeeper",
 }
 
 // the state a package's keeper works on: the block's KV stores, or (x/burn, which only talks to x/bank) the bank model
-var worldTypeOf = map[string]string{"burnkeeper": "Go.BankWorld"}
+var worldTypeOf = map[string]string{"burnkeeper": "Go.BankWorld", "pnftkeeper": "Go.Nft.World"}
 
 func worldType(ns string) string {
 	if t, ok := worldTypeOf[ns]; ok {
@@ -45,7 +47,8 @@ func worldType(ns string) string {
 func codeSkipFile(name string) bool {
 	return strings.HasSuffix(name, ".pb.go") || strings.HasSuffix(name, ".pb.gw.go") || strings.HasSuffix(name, "_test.go") ||
 		strings.HasSuffix(name, "/codec.go") || strings.HasSuffix(name, "/errors.go") || strings.HasSuffix(name, "/expected_keepers.go") ||
-		strings.HasSuffix(name, "/keeper.go") || strings.HasSuffix(name, "/msg_server.go") || strings.HasSuffix(name, "/grpc_query.go")
+		strings.HasSuffix(name, "/keeper.go") || strings.HasSuffix(name, "/x/aol/keeper/msg_server.go") ||
+		strings.HasSuffix(name, "/x/did/keeper/msg_server.go") || strings.HasSuffix(name, "/grpc_query.go")
 }
 
 // store key of each keeper package (the value of `k.storeKey`; tied separately by Facts.mountedStores)
@@ -106,6 +109,12 @@ func fail(format string, a ...interface{}) { panic(unsupported{fmt.Sprintf(forma
 func isCtxType(t types.Type) bool {
 	s := t.String()
 	return s == "github.com/cosmos/cosmos-sdk/types.Context" || s == "context.Context"
+}
+
+// the codec is ambient as well (its use is `Go.Proto`), but does not make a function stateful
+func isCodecType(t types.Type) bool {
+	s := t.String()
+	return s == "github.com/cosmos/cosmos-sdk/codec.BinaryCodec" || s == "github.com/cosmos/cosmos-sdk/codec.Codec"
 }
 
 func namedOf(t types.Type) *types.Named {
@@ -177,6 +186,14 @@ func (g *cgen) leanType(t types.Type) string {
 			fail("named type %s", name)
 		}
 		switch full.Path() + "." + name {
+		case "github.com/cosmos/cosmos-sdk/x/nft.Class":
+			return "Go.Nft.Class"
+		case "github.com/cosmos/cosmos-sdk/x/nft.NFT":
+			return "Go.Nft.NFT"
+		case "github.com/cosmos/cosmos-sdk/codec/types.Any":
+			return "Go.Any"
+		case "time.Time":
+			return "Go.Time"
 		case "github.com/cosmos/cosmos-sdk/types.Coins":
 			return "(List (Bytes × Nat))"
 		case "github.com/cosmos/cosmos-sdk/types.AccAddress", "github.com/cometbft/cometbft/crypto/secp256k1.PubKey",
@@ -371,7 +388,7 @@ var leanReserved = map[string]bool{"end": true, "at": true, "from": true, "to": 
 	"break": true, "continue": true, "import": true, "export": true, "local": true, "private": true, "protected": true, "mutual": true,
 	"inductive": true, "deriving": true, "extends": true, "using": true, "calc": true, "nomatch": true, "nofun": true, "macro": true,
 	"syntax": true, "notation": true, "infix": true, "prefix": true, "postfix": true, "set_option": true, "attribute": true, "universe": true,
-	"example": true, "abbrev": true, "world": true, "world0": true, "crypto": true, "id": true, "opaque": true, "axiom": true, "bech": true, "I": true, "Go": true, "strings": true}
+	"example": true, "abbrev": true, "meta": true, "nft": true, "world": true, "world0": true, "crypto": true, "id": true, "opaque": true, "axiom": true, "bech": true, "I": true, "Go": true, "strings": true}
 
 func (c *fctx) nameOf(o types.Object) string {
 	if n, ok := c.names[o]; ok {
@@ -533,6 +550,8 @@ func (g *cgen) pkgVar(v *types.Var) string {
 			return "(some \"sdk/4\" : Go.Err)"
 		case "github.com/cosmos/cosmos-sdk/types/errors.ErrKeyNotFound":
 			return "(some \"sdk/30\" : Go.Err)"
+		case "github.com/cosmos/cosmos-sdk/x/nft/keeper.ClassKey":
+			return "Go.Nft.classKey"
 		}
 		fail("external package variable %s.%s", v.Pkg().Path(), v.Name())
 	}
@@ -1072,12 +1091,38 @@ func (c *fctx) call(e *emitter, ind int, call *ast.CallExpr, want int) []string 
 		}
 		r := c.bind(e, ind, c.lift()+" (Go.reMatch "+reTree(pat)+" "+arg(1)+")", 1)
 		return []string{r[0], "(none : Go.Err)"}[:max1(want, 1)]
+	case "errors.New":
+		if tv := c.info.Types[call.Args[0]]; tv.Value != nil {
+			return []string{"(some " + leanStr("err:"+constant.StringVal(tv.Value)) + " : Go.Err)"}
+		}
+		return []string{"(some \"err\" : Go.Err)"}
+	case "strings.IndexByte":
+		return []string{"(Go.indexByte " + arg(0) + " " + arg(1) + ")"}
 	case "strings.HasPrefix":
 		return []string{"(List.isPrefixOf " + arg(1) + " " + arg(0) + ")"}
 	case "github.com/cosmos/cosmos-sdk/types.AccAddress.Empty":
 		return []string{"(" + c.expr(e, ind, sel.X) + ").isEmpty"}
 	case "log.Printf", "log.Println":
 		return nil
+	case "github.com/cosmos/cosmos-sdk/codec/types.NewAnyWithValue":
+		u, ok := call.Args[0].(*ast.UnaryExpr)
+		if !ok || u.Op != token.AND {
+			fail("NewAnyWithValue of a non-address")
+		}
+		lt := c.g.leanType(c.info.TypeOf(u.X))
+		c.f.protos[lt] = true
+		return []string{"(some ({ TypeUrl := " + leanBytesLit(lt) + ", Value := Go.Proto.marshal " + c.expr(e, ind, u.X) + " } : Go.Any))", "(none : Go.Err)"}
+	case "github.com/cosmos/cosmos-sdk/codec/types.Any.GetValue":
+		return []string{"(Go.anyValue " + c.expr(e, ind, sel.X) + ")"}
+	case "github.com/cosmos/cosmos-sdk/types.EventManager.EmitTypedEvent":
+		return []string{"(none : Go.Err)"} // events are not part of the modelled state
+	case "github.com/cosmos/cosmos-sdk/types.Context.BlockTime":
+		if worldType(c.f.ns) == "Go.Nft.World" {
+			return []string{"(Go.Nft.blockTime world)"}
+		}
+		fail("ctx.BlockTime() outside UnixNano()")
+	case "time.Time.IsZero":
+		return []string{"(Go.Time.isZero " + c.expr(e, ind, sel.X) + ")"}
 	case "github.com/cosmos/cosmos-sdk/types.Coins.Empty":
 		return []string{"(" + c.expr(e, ind, sel.X) + ").isEmpty"}
 	case "fmt.Sprintf":
@@ -1180,6 +1225,92 @@ func (c *fctx) call(e *emitter, ind int, call *ast.CallExpr, want int) []string 
 			return []string{"(Go.blockTimeUnixNano world)"}
 		}
 		fail("UnixNano of something that is not ctx.BlockTime()")
+	}
+	// the SDK's x/nft keeper (hand-written model Go/Nft.lean)
+	if sel != nil {
+		if inner, ok := sel.X.(*ast.SelectorExpr); ok && inner.Sel.Name == "nftKeeper" {
+			switch sel.Sel.Name {
+			case "SaveClass", "UpdateClass":
+				fnm := map[string]string{"SaveClass": "saveClass", "UpdateClass": "updateClass"}[sel.Sel.Name]
+				t := c.fresh("t")
+				e.add(ind, fmt.Sprintf("let %s := Go.Nft.%s world %s", t, fnm, arg(1)))
+				e.add(ind, fmt.Sprintf("world := %s.1", t))
+				return []string{t + ".2"}
+			case "Mint":
+				t := c.fresh("t")
+				e.add(ind, fmt.Sprintf("let %s := Go.Nft.mint world %s %s", t, arg(1), arg(2)))
+				e.add(ind, fmt.Sprintf("world := %s.1", t))
+				return []string{t + ".2"}
+			case "Burn":
+				t := c.fresh("t")
+				e.add(ind, fmt.Sprintf("let %s := Go.Nft.burn world %s %s", t, arg(1), arg(2)))
+				e.add(ind, fmt.Sprintf("world := %s.1", t))
+				return []string{t + ".2"}
+			case "Transfer":
+				t := c.fresh("t")
+				e.add(ind, fmt.Sprintf("let %s := Go.Nft.transfer world %s %s %s", t, arg(1), arg(2), arg(3)))
+				e.add(ind, fmt.Sprintf("world := %s.1", t))
+				return []string{t + ".2"}
+			case "GetClass":
+				t := c.fresh("t")
+				e.add(ind, fmt.Sprintf("let %s := Go.Nft.getClass world %s", t, arg(1)))
+				return []string{t + ".1", t + ".2"}
+			case "GetNFT":
+				t := c.fresh("t")
+				e.add(ind, fmt.Sprintf("let %s := Go.Nft.getNFT world %s %s", t, arg(1), arg(2)))
+				return []string{t + ".1", t + ".2"}
+			case "GetClasses":
+				return []string{"(Go.Nft.getClasses world)"}
+			case "GetOwner":
+				return []string{"(Go.Nft.getOwner world " + arg(1) + " " + arg(2) + ")"}
+			case "GetTotalSupply":
+				return []string{"(Go.Nft.getTotalSupply world " + arg(1) + ")"}
+			case "GetNFTsOfClass":
+				return []string{"(Go.Nft.getNFTsOfClass world " + arg(1) + ")"}
+			case "GetNFTsOfClassByOwner":
+				return []string{"(Go.Nft.getNFTsOfClassByOwner world " + arg(1) + " " + arg(2) + ")"}
+			}
+			fail("x/nft keeper method %s", sel.Sel.Name)
+		}
+		// cdc.Unmarshal(bz, &m) through a codec-typed receiver (k.cdc or a parameter)
+		if sel.Sel.Name == "Unmarshal" && len(call.Args) == 2 {
+			if rt := c.info.TypeOf(sel.X); rt != nil && isCodecType(rt) {
+				u, ok := call.Args[1].(*ast.UnaryExpr)
+				id, ok2 := u.X.(*ast.Ident)
+				if !ok || u.Op != token.AND || !ok2 {
+					fail("Unmarshal into a non-variable")
+				}
+				lt := c.g.leanType(c.info.TypeOf(u.X))
+				c.f.protos[lt] = true
+				t := c.fresh("t")
+				e.add(ind, fmt.Sprintf("let %s := (Go.unmarshalE %s : %s × Go.Err)", t, arg(0), lt))
+				e.add(ind, fmt.Sprintf("%s := %s.1", c.nameOf(c.info.ObjectOf(id)), t))
+				return []string{t + ".2"}
+			}
+		}
+		// raw delete on the module store of a keeper whose world is the x/nft model
+		if sel.Sel.Name == "Delete" && worldType(c.f.ns) == "Go.Nft.World" {
+			e.add(ind, "world ← Go.Nft.rawDelete world "+arg(0))
+			return nil
+		}
+		// generated plain getter of a protobuf message: `m.GetX()` is nil-safe field access
+		if fn != nil && strings.HasPrefix(fn.Name(), "Get") && len(call.Args) == 0 &&
+			strings.HasSuffix(fset.Position(fn.Pos()).Filename, ".pb.go") {
+			if n := namedOf(fn.Type().(*types.Signature).Recv().Type()); n != nil {
+				if st, ok := n.Underlying().(*types.Struct); ok {
+					field := strings.TrimPrefix(fn.Name(), "Get")
+					for i := 0; i < st.NumFields(); i++ {
+						if st.Field(i).Name() == field {
+							recv := c.expr(e, ind, sel.X)
+							if _, isPtr := c.info.TypeOf(sel.X).Underlying().(*types.Pointer); isPtr {
+								return []string{fmt.Sprintf("(match %s with | some m_ => m_.%s | none => default)", recv, leanField(field))}
+							}
+							return []string{recv + "." + leanField(field)}
+						}
+					}
+				}
+			}
+		}
 	}
 	// logging has no effect on the state (its arguments are not evaluated here)
 	if sel != nil && (sel.Sel.Name == "Info" || sel.Sel.Name == "Error" || sel.Sel.Name == "Debug") {
@@ -1422,7 +1553,7 @@ func (c *fctx) callTranslated(e *emitter, ind int, cf *cfn, call *ast.CallExpr, 
 	}
 	for i, a := range call.Args {
 		pt := sig.Params().At(i).Type()
-		if isCtxType(pt) {
+		if isCtxType(pt) || isCodecType(pt) {
 			continue
 		}
 		addArg(a, pt)
@@ -1965,6 +2096,9 @@ func (g *cgen) analyse() {
 				cf.stateful = true
 				continue
 			}
+			if isCodecType(p.Type()) {
+				continue
+			}
 			if isCompositeKeyIface(p.Type()) {
 				cf.ifaceGen = true
 			}
@@ -2039,7 +2173,7 @@ func (g *cgen) analyse() {
 						}
 						sig := callee.obj.Type().(*types.Signature)
 						for i, a := range v.Args {
-							if i >= sig.Params().Len() || isCtxType(sig.Params().At(i).Type()) {
+							if i >= sig.Params().Len() || isCtxType(sig.Params().At(i).Type()) || isCodecType(sig.Params().At(i).Type()) {
 								continue
 							}
 							if k < len(callee.mut) && callee.mut[k] {
@@ -2321,7 +2455,7 @@ func emitCode(pkgs []*packages.Package, outDir string) {
 
 	var b strings.Builder
 	b.WriteString("-- GENERATED by /verif/extract from /repo's current working tree. Do not edit.\n")
-	b.WriteString("import Panacea.Go.Lib\nset_option linter.unusedVariables false\nopen Panacea\nnamespace Panacea.Gen\n\n")
+	b.WriteString("import Panacea.Go.Lib\nimport Panacea.Go.Nft\nset_option linter.unusedVariables false\nopen Panacea\nnamespace Panacea.Gen\n\n")
 	b.WriteString("/-- `compkey.CompositeKey` as a dictionary over the concrete (pointer) type -/\nstructure compkey.CompositeKey (κ : Type) where\n  ByteSlices : κ → Go.P (List Bytes)\n  FromByteSlices : κ → List Bytes → Go.P (Go.Err × κ)\n  Strings : κ → Go.P (List Bytes)\n  FromStrings : κ → List Bytes → Go.P (Go.Err × κ)\n\n")
 	// function bodies first into a buffer (they may create structs / vars / instances on demand)
 	type item struct {
